@@ -105,6 +105,34 @@ MUT=[ # (id, file, old, new, kind)
  ('M32 IntsToUints index loop starts at 1','conv/slices.go','\tfor i, v := range ints {\n\t\tresult[i] = uint(v)\n\t}','\tfor i := 1; i < len(ints); i++ {\n\t\tresult[i] = uint(ints[i])\n\t}','mut'),
  ('M33 Index range loop reads Offset','data/arrays.go','\tfor i := 0; i < len(loc); i++ {\n\t\tresult += loc[i] * nd.OffsetStep[i]\n\t}','\tfor i, l := range loc {\n\t\tresult += l * nd.Offset[i]\n\t}','mut'),
  ('M34 SliceInto inline loop multiplies by Offset of dest twice','data/arrays.go','dest.OffsetStep = Multiply(dest.Step, dest.Offset)','dest.OffsetStep = Multiply(dest.Offset, dest.Offset)','mut'),
+ # work package R3: stored behaviour-preserving rewrites that the tie now absorbs (write-only locals removed, a fixed array with a
+ # count for a slice built with append, spare capacity, parallel assignments, the iteration loop counting down, the trial loop's
+ # bookkeeping reordered; brackets with the upper index alone; the Gregorian tests in another order) …
+ ('H27 FindRoot: [3]float64 + count, write-only trialDeltas removed (h3/C11-3)','util/fn/root.go',None,None,'harmless-patch:h3/C11-3/patch.diff'),
+ ('H28 FindRoot: count-down loop, make with capacity, parallel assignments, switch ladders (h3/C18-3)','util/fn/root.go',None,None,'harmless-patch:h3/C18-3/patch.diff'),
+ ('H29 brackets: upper index alone; Piecewise: two index slices, early return first (h3/C13-1)','util/fn/piecewise.go',None,None,'harmless-patch:h3/C13-1/patch.diff'),
+ ('H30 leapYear: tests ordered 400 / 100 / 4, merged month test (h3/C19-1)','models/functions/dates.go',None,None,'harmless-patch:h3/C19-1/patch.diff'),
+ # … and semantic mutants of those forms (they must still fail)
+ ('M35 FindRoot array form: the Newton point is stored but not counted','util/fn/root.go','nTrials = 3','nTrials = 2','mut-patch:h3/C11-3/patch.diff'),
+ ('M36 FindRoot array form: exit test against the constant 2','util/fn/root.go','if hitConvergenceLimit == nTrials {','if hitConvergenceLimit == 2 {','mut-patch:h3/C11-3/patch.diff'),
+ ('M37 FindRoot array form: second trial point is the mean of the two','util/fn/root.go','trialXs[1] = bisectionX','trialXs[1] = (bisectionX + halvingX) * 0.5','mut-patch:h3/C11-3/patch.diff'),
+ ('M38 FindRoot count-down loop: one iteration fewer','util/fn/root.go','remaining > 0; remaining--','remaining > 1; remaining--','mut-patch:h3/C18-3/patch.diff'),
+ ('M39 FindRoot reordered bookkeeping: counter incremented when NOT close','util/fn/root.go','if closeToX {','if !closeToX {','mut-patch:h3/C18-3/patch.diff'),
+ ('M40 FindRoot parallel write-back halves the residual','util/fn/root.go','minX, minDelta = newMinX, newMinDelta','minX, minDelta = newMinX, newMinDelta*0.5','mut-patch:h3/C18-3/patch.diff'),
+ ('M41 brackets upper index alone: returns (upper, upper)','util/fn/piecewise.go','return upper - 1, upper','return upper, upper','mut-patch:h3/C13-1/patch.diff'),
+ ('M42 leapYear reordered: century years are leap years','models/functions/dates.go','case y%100 == 0:\n\t\treturn false','case y%100 == 0:\n\t\treturn true','mut-patch:h3/C19-1/patch.diff'),
+ ('H31 index helpers: range ↔ index loops, running stride in Offsets, temporaries (h3/C02-1)','data/sliceops.go',None,None,'harmless-patch:h3/C02-1/patch.diff'),
+ ('H32 brackets through an accessor closure, merged range test, constant noBracket (h3/C18-2)','util/fn/piecewise.go',None,None,'harmless-patch:h3/C18-2/patch.diff'),
+ ('M44 Offsets running stride: multiplies by the wrong dimension','data/arraysint.go','stride *= dims[i]','stride *= dims[i-1]','mut-patch:h3/C02-1/patch.diff'),
+ ('M45 Offsets running stride: stored one place too far','data/arraysint.go','res[i-1] = stride','res[i] = stride','mut-patch:h3/C02-1/patch.diff'),
+ ('M46 Increment store-once form: carry test <=','data/sliceops.go','if next < wrt[axis] {','if next <= wrt[axis] {','mut-patch:h3/C02-1/patch.diff'),
+ ('M47 Argmax index form: off by one','data/sliceops.go','\t\t\tres = i\n','\t\t\tres = i + 1\n','mut-patch:h3/C02-1/patch.diff'),
+ ('M48 Maximum index form: reads the previous element','data/sliceops.go','res = max(res, vector[i])','res = max(res, vector[i-1])','mut-patch:h3/C02-1/patch.diff'),
+ ('M49 IDivMod with the quotient temporary: divides by the modulator','data/arraysint.go','quotient := numerator / denominators[i]','quotient := numerator / modulator[i]','mut-patch:h3/C02-1/patch.diff'),
+ ('M50 brackets accessor closure reads the next knot','util/fn/piecewise.go','\t\tidx[0] = k\n','\t\tidx[0] = k + 1\n','mut-patch:h3/C18-2/patch.diff'),
+ ('M51 brackets merged range test against the last but one knot','util/fn/piecewise.go','x > knot(n-1)','x > knot(n-2)','mut-patch:h3/C18-2/patch.diff'),
+ ('M52 brackets constant noBracket = -2','util/fn/piecewise.go','const noBracket = -1','const noBracket = -2','mut-patch:h3/C18-2/patch.diff'),
+ ('M43 FindRoot: a local that IS read is not removed (the exit test reads the length of trialDeltas + 1)','util/fn/root.go','if hitConvergenceLimit == len(trialXs) {','if hitConvergenceLimit == len(trialDeltas)+1 {','mut'),
 ]
 
 
@@ -129,13 +157,19 @@ def main(sel):
             orig = open(p).read()
             if kind == 'harmless-fn':
                 mod = contig_rename(orig)
-            elif kind.startswith('harmless-patch:'):
+            elif kind.startswith('harmless-patch:') or kind.startswith('mut-patch:'):
                 diff = os.path.join(verif, 'harmless', kind.split(':', 1)[1])
                 if subprocess.run(['git', 'apply', diff], cwd=repo, capture_output=True).returncode != 0 \
                         and subprocess.run(['patch', '-p1', '-s', '-i', diff], cwd=repo, capture_output=True).returncode != 0:
                     print(mid, 'SKIPPED: the stored patch no longer applies')
                     continue
                 mod = open(p).read()
+                if old is not None:   # a mutation of the rewritten text
+                    if mod.count(old) != 1:
+                        open(p, 'w').write(orig)
+                        print(mid, 'SKIPPED: the source text of this entry is no longer there')
+                        continue
+                    mod = mod.replace(old, new)
             else:
                 if orig.count(old) != 1:
                     print(mid, 'SKIPPED: the source text of this entry is no longer there')
@@ -153,13 +187,23 @@ def main(sel):
                     verdict = 'FAILED: ' + ','.join(failed) if failed else 'no alarm'
                 except Exception:
                     verdict = 'ERROR ' + (r.stdout + r.stderr)[-400:]
-                expected = verdict.startswith('FAILED') if kind == 'mut' else verdict == 'no alarm'
+                expected = verdict.startswith('FAILED') if kind.split(':')[0] in ('mut', 'mut-patch') else verdict == 'no alarm'
                 if mid.startswith('H17b'):
                     expected = True
                 bad += 0 if expected and compiles else 1
                 print('%-4s %-70s %-8s %s%s' % ('ok' if expected and compiles else 'BAD', mid, kind.split('-')[0].split(':')[0], verdict, '' if compiles else '  (Go does not compile!)'), flush=True)
             finally:
                 open(p, 'w').write(orig)
+                if ':' in kind:   # a stored patch may touch several files: all are taken back from the source tree
+                    diff = os.path.join(verif, 'harmless', kind.split(':', 1)[1])
+                    for line in open(diff):
+                        if line.startswith('+++ b/'):
+                            rel = line[6:].strip()
+                            srcf = os.path.join(os.environ.get('OW_REPO', '/repo'), rel)
+                            if os.path.exists(srcf):
+                                shutil.copyfile(srcf, os.path.join(repo, rel))
+                            elif os.path.exists(os.path.join(repo, rel)):
+                                os.remove(os.path.join(repo, rel))
     finally:
         shutil.rmtree(repo, ignore_errors=True)
         subprocess.run([sys.executable, '-m', 'vlib.genidx'], cwd=verif, env=dict(env, OW_REPO=os.environ.get('OW_REPO', '/repo')), capture_output=True)
